@@ -10,6 +10,7 @@ Rust ↔ Lean
   parser/common.rs:283-308  parse_memory_reference(_with_brackets) ↔ parseMemoryReference(WithBrackets)
   parser/common.rs:484-490  parse_i                     ↔ parseI
   parser/expression.rs:125-143 parse_immediate_value    ↔ parseImmediateValue
+  parser/command.rs parse_call_immediate                ↔ parseCallImmediate
   parser/expression.rs:282-291 parse_prefix             ↔ (inlined in parseSignedNumber)
   token!(Integer(v)) positions (DEFGATE permutation entries, PRAGMA arguments, DECLARE lengths,
   qubit indices, memory indices, SHARING offsets)        ↔ parseU64
@@ -146,6 +147,49 @@ def parseImmediateValue : List Token → PRes Cplx
     | some rest' => .ok ⟨0, b⟩ rest'
     | none => .ok ⟨b, 0⟩ rest
   | _ => .err
+
+/-- is the double a zero (`x == 0f64`: +0.0 or -0.0)? -/
+def isZeroBits (b : Nat) : Bool := b == 0 || b == QV.DecF64.two63
+
+/-- `0f64 - x` on bit patterns of finite doubles: `+0.0` for either zero, the negation otherwise -/
+def zeroMinus (b : Nat) : Nat := if isZeroBits b then 0 else QV.DecF64.negBits b
+
+/-- `x + z` where `z` is a zero: `x` itself unless `x` is a zero too (then `-0.0` only if both are) -/
+def addZero (x z : Nat) : Nat :=
+  if isZeroBits x then (if x == QV.DecF64.two63 && z == QV.DecF64.two63 then QV.DecF64.two63 else 0) else x
+
+/-- `negate` in `parse_call_immediate`: `Complex64::new(0, 0) - value` -/
+def negateC (z : Cplx) : Cplx := ⟨zeroMinus z.re, zeroMinus z.im⟩
+
+/-- `parse_call_immediate` (command.rs, since /repo commit 9ad4430): optional minus, an immediate value,
+then optionally `+`/`-` and a second immediate value which is merged when the first is real and the second
+purely imaginary and non-zero; otherwise the second part is left unconsumed. -/
+def parseCallImmediate (ts : List Token) : PRes Cplx :=
+  let (minus, ts1) : Bool × List Token :=
+    match ts with
+    | .operator .minus :: r => (true, r)
+    | _ => (false, ts)
+  match parseImmediateValue ts1 with
+  | .err => .err
+  | .ok z r =>
+    let first := if minus then negateC z else z
+    let second : Option (Cplx × List Token) :=
+      match r with
+      | .operator .plus :: r2 =>
+        match parseImmediateValue r2 with
+        | .ok s r3 => some (s, r3)
+        | .err => none
+      | .operator .minus :: r2 =>
+        match parseImmediateValue r2 with
+        | .ok s r3 => some (negateC s, r3)
+        | .err => none
+      | _ => none
+    match second with
+    | some (s, r3) =>
+      if isZeroBits first.im && isZeroBits s.re && !isZeroBits s.im
+      then .ok ⟨addZero first.re s.re, s.im⟩ r3      -- first + second (first.im is a zero, s.im is not)
+      else .ok first r
+    | none => .ok first r
 
 /-- the head of `parse` (expression.rs:79-84) on a numeric literal: `opt(parse_prefix)` then
 `parse_immediate_value`; the result is `Number z` or `Prefix(Minus, Number z)` (flag = negated). -/
